@@ -96,6 +96,26 @@ theorem terminates_when_matchable (limits : Nat → Nat) (as : List Action) (hns
       · rfl
       · have := hc.reader hr; rw [this] at hlim; simp at hlim
 
+/-- **registered exactly where the operation says, with the current sched_id** - at the moment a fiber suspends, from
+    any state satisfying the invariant `WInv` (hence from every reachable state, by `no_lost_wakeup`):
+    a give that suspends is registered on its channel and nowhere else; a take that suspends either only yields (the item
+    was there: one live task, no registration) or is registered on its channel and nowhere else; a select that suspends
+    is registered on the channel of every clause and nowhere else; in the registered cases there is no live task.
+    (`liveIn fb ent f c` = some pending entry of channel `c` has fiber `f` and `f`'s current sched_id.)
+    That this stays so until the fiber is scheduled is NOT stated as an invariant: the model keeps no record of the
+    operation a fiber is suspended in; `no_lost_wakeup` only says that *some* live registration remains. -/
+theorem suspends_registered_exactly (w : World) (f : Nat) (hi : WInv w) (hcur : w.current = some f) :
+    (∀ c x w', step currentCfg w (.give c x) = (w', .await) →
+      Ev.LT w'.fibers w'.runq f = 0 ∧ ∀ c', liveIn w'.fibers w'.ent f c' ↔ c' = c) ∧
+    (∀ c w', step currentCfg w (.take c) = (w', .await) →
+      (Ev.LT w'.fibers w'.runq f = 1 ∧ ∀ c', ¬ liveIn w'.fibers w'.ent f c') ∨
+      (Ev.LT w'.fibers w'.runq f = 0 ∧ ∀ c', liveIn w'.fibers w'.ent f c' ↔ c' = c)) ∧
+    (∀ cls w', (cls.map Clause.chan).Nodup → step currentCfg w (.select cls) = (w', .await) →
+      Ev.LT w'.fibers w'.runq f = 0 ∧ ∀ c', liveIn w'.fibers w'.ent f c' ↔ c' ∈ cls.map Clause.chan) :=
+  ⟨fun _ _ w' h => Ev.give_suspends_exactly current_good hi hcur w' h,
+   fun _ w' h => Ev.take_suspends_exactly current_good hi hcur w' h,
+   fun _ w' hnd h => Ev.select_suspends_exactly current_good hi hcur hnd w' h⟩
+
 /-- `noSelfMatch` is needed: `(ev/select c0 [c0 5] c0)` alone in a fiber is matched with itself in the registration
     loop; when the fiber runs again - its select has returned `[:take c0 5]` - it still has a current registration in
     c0's read queue, which `no_lost_wakeup` (`WQuiet`) excludes.  (Configuration with every check.) -/
